@@ -55,7 +55,7 @@ type result struct {
 	Err          string  `json:"err"`
 }
 
-const hangDur = 6 * time.Second
+const hangDur = 3 * time.Second
 
 func ms(x float64) time.Duration { return time.Duration(x * float64(time.Millisecond)) }
 
@@ -228,7 +228,7 @@ func runCase(k kase) (out result) {
 		}
 		name := op[0].(string)
 		var r opRes
-		if name == "w" || name == "c" || name == "a" {
+		if name == "w" || name == "big" || name == "pc" || name == "c" || name == "a" {
 			// an OutputChan commit still in flight: MPCalContext would still be inside commit(); give it a moment
 			if sp := senders[int(op[1].(float64))]; sp.commitCh != nil && waitCh(sp.commitCh, 30*time.Millisecond) {
 				sp.commitCh = nil
@@ -263,8 +263,10 @@ func runCase(k kase) (out result) {
 							break
 						}
 					}
-					if ch := s.top.Commit(iface); ch != nil {
-						<-ch
+					if ch := s.top.Commit(iface); !waitCh(ch, time.Duration(4*k.WriteMs)*time.Millisecond+50*time.Millisecond) {
+						s.commitCh = ch
+						log = append(log, []interface{}{i, "pending"})
+						break
 					}
 					log = append(log, []interface{}{i, "ok"})
 				}
@@ -299,7 +301,7 @@ func runCase(k kase) (out result) {
 			})
 		case "pc":
 			s := senders[int(op[1].(float64))]
-			if s.state != "written" {
+			if s.state != "written" || s.commitCh != nil {
 				r = opRes{St: "skip"}
 				break
 			}
@@ -331,17 +333,18 @@ func runCase(k kase) (out result) {
 			}
 			s.state = ""
 			ch := s.top.Commit(iface)
-			wait := hangDur
-			if k.Kind == "chan" {
-				wait = 30 * time.Millisecond
+			// Commit may legitimately take as long as it needs (MPCalContext waits for it): the driver gives it a
+			// moment and otherwise goes on with the other parties ("pending"), as a sender context stuck in
+			// commit() while the receiver keeps running would
+			wait := 30 * time.Millisecond
+			if k.Kind != "chan" {
+				wait = time.Duration(4*k.WriteMs)*time.Millisecond + 50*time.Millisecond
 			}
 			if waitCh(ch, wait) {
 				r = opRes{St: "ok"}
-			} else if k.Kind == "chan" {
+			} else {
 				s.commitCh = ch
 				r = opRes{St: "pending"}
-			} else {
-				r = opRes{St: "hang"}
 			}
 		case "cw": // wait again for a pending OutputChan commit
 			s := senders[int(op[1].(float64))]
@@ -461,8 +464,8 @@ func main() {
 			fmt.Fprintln(os.Stderr, "bad case:", err)
 			os.Exit(2)
 		}
-		if hungCases >= 5 {
-			enc.Encode(result{ID: k.ID, Err: "not run: 5 earlier cases blocked forever"})
+		if hungCases >= 15 {
+			enc.Encode(result{ID: k.ID, Err: "not run: 15 earlier cases blocked forever"})
 			continue
 		}
 		r := runCase(k)
